@@ -391,7 +391,7 @@ class Oracle:
         if not i.parameters.orientation_parameters:
             if self.raw.has_iqxy:
                 return self.raw.Iqxy(qx, qy, v)
-            return self.raw.Iq(math.hypot(qx, qy), v)
+            return self.raw.Iq(math.sqrt(qx*qx + qy*qy), v)
         qa, qb, qc = particle_q(qx, qy, view.get("theta", 0.0), view.get("phi", 0.0), view.get("psi", 0.0),
                                 jitter[0], jitter[1], jitter[2])
         if i.parameters.is_asymmetric:
